@@ -5930,3 +5930,50 @@ mod tests {
     );
   }
 }
+
+/// Verification hooks: one-line forwarders to private map-assignment and
+/// prelude kernels so an out-of-tree harness crate can drive them. Compiled
+/// only with `--cfg anweiss_cddl_verif`.
+#[cfg(anweiss_cddl_verif)]
+#[doc(hidden)]
+#[allow(missing_docs)]
+pub mod verif_hooks {
+  use super::{CBORValidator, Identifier, Value, CDDL};
+
+  pub fn augment_single_entry_assignment(
+    claim_slot: usize,
+    compatibility: &[Vec<bool>],
+    visited_entries: &mut [bool],
+    entry_owners: &mut [Option<usize>],
+  ) -> bool {
+    CBORValidator::augment_single_entry_assignment(
+      claim_slot,
+      compatibility,
+      visited_entries,
+      entry_owners,
+    )
+  }
+  pub fn is_unconsumed_map_entry(entry_index: usize, claimed_entries: &[usize]) -> bool {
+    CBORValidator::is_unconsumed_map_entry(entry_index, claimed_entries)
+  }
+  pub fn find_unconsumed_map_entry<'m>(
+    entries: &'m [(Value, Value)],
+    claimed_entries: &[usize],
+    predicate: impl Fn(&Value) -> bool,
+  ) -> Option<(usize, &'m (Value, Value))> {
+    CBORValidator::find_unconsumed_map_entry(entries, claimed_entries, predicate)
+  }
+  pub fn collect_unconsumed_map_entries_matching(
+    entries: &[(Value, Value)],
+    claimed_entries: &[usize],
+    predicate: impl Fn(&Value) -> bool,
+  ) -> Vec<usize> {
+    CBORValidator::collect_unconsumed_map_entries_matching(entries, claimed_entries, predicate)
+  }
+  pub fn numeric_ident_matches_cbor_value(cddl: &CDDL, ident: &Identifier, v: &Value) -> bool {
+    super::numeric_ident_matches_cbor_value(cddl, ident, v)
+  }
+  pub fn is_bignum_value(cddl: &CDDL, ident: &Identifier, v: &Value) -> bool {
+    super::is_bignum_value(cddl, ident, v)
+  }
+}
